@@ -14,7 +14,9 @@ Definition pcw (p : pc) : nat :=
   end.
 Definition callw (c : call) : nat :=
   match c with
-  | CWrite _ | CData _ => 8 | COpen => 11 | CClose => 3 | CPump => 9 | _ => 1
+  | CWrite _ | CData _ => 8 | COpen => 11 | CClose => 3 | CPump => 9
+  | CFeed _ => 4      (* 1 for the call itself + 3: an injected EOF / error / Alert sets the receive task in motion (ConcFair) *)
+  | _ => 1
   end.
 Fixpoint progw (p : list call) : nat := match p with [] => 0 | c :: r => callw c + progw r end.
 Definition mu (s : state) (t : tid) : nat := pcw (pcof s t) + progw (t_prog (tasks s t)).
